@@ -65,61 +65,75 @@ theorem frag_effect (s : BState) (c : Call) (h : c.isExprCall = true) :
 structure Grows (s s' : BState) : Prop where
   vars : s.doc.vars <+: s'.doc.vars
   funs : s.doc.funs <+: s'.doc.funs
-  syms : ∀ (sid : SymId) (sym : Symbol), s.syms[sid]? = some sym → ∃ sym' : Symbol, s'.syms[sid]? = some sym' ∧ sym'.name = sym.name ∧ sym'.user = sym.user
+  locs : s.doc.locs <+: s'.doc.locs
+  bps : s.doc.bps <+: s'.doc.bps
+  syms : ∀ (sid : SymId) (sym : Symbol), s.syms[sid]? = some sym → ∃ sym' : Symbol, s'.syms[sid]? = some sym' ∧ sym'.name = sym.name ∧ sym'.user = sym.user ∧
+    (sym.ty.isLocation = true → sym'.ty.isLocation = true)
 
-theorem Grows.refl (s : BState) : Grows s s := ⟨List.prefix_refl _, List.prefix_refl _, fun _ sym h => ⟨sym, h, rfl, rfl⟩⟩
+theorem Grows.refl (s : BState) : Grows s s := ⟨List.prefix_refl _, List.prefix_refl _, List.prefix_refl _, List.prefix_refl _, fun _ sym h => ⟨sym, h, rfl, rfl, id⟩⟩
 
 theorem Grows.trans {a b c : BState} (h1 : Grows a b) (h2 : Grows b c) : Grows a c :=
-  ⟨h1.vars.trans h2.vars, h1.funs.trans h2.funs, fun sid sym h => by
-    obtain ⟨s1, e1, n1, u1⟩ := h1.syms sid sym h
-    obtain ⟨s2, e2, n2, u2⟩ := h2.syms sid s1 e1
-    exact ⟨s2, e2, n2.trans n1, u2.trans u1⟩⟩
+  ⟨h1.vars.trans h2.vars, h1.funs.trans h2.funs, h1.locs.trans h2.locs, h1.bps.trans h2.bps, fun sid sym h => by
+    obtain ⟨s1, e1, n1, u1, l1⟩ := h1.syms sid sym h
+    obtain ⟨s2, e2, n2, u2, l2⟩ := h2.syms sid s1 e1
+    exact ⟨s2, e2, n2.trans n1, u2.trans u1, fun hl => l2 (l1 hl)⟩⟩
 
-theorem Grows.of_eq {s s' : BState} (h1 : s'.syms = s.syms) (h2 : s'.doc.vars = s.doc.vars) (h3 : s'.doc.funs = s.doc.funs) : Grows s s' :=
-  ⟨by rw [h2]; exact List.prefix_refl _, by rw [h3]; exact List.prefix_refl _, fun sid sym h => ⟨sym, by rw [h1]; exact h, rfl, rfl⟩⟩
+theorem Grows.of_eq {s s' : BState} (h1 : s'.syms = s.syms) (h2 : s'.doc.vars = s.doc.vars) (h3 : s'.doc.funs = s.doc.funs)
+    (h4 : s'.doc.locs = s.doc.locs := by rfl) (h5 : s'.doc.bps = s.doc.bps := by rfl) : Grows s s' :=
+  ⟨by rw [h2]; exact List.prefix_refl _, by rw [h3]; exact List.prefix_refl _, by rw [h4]; exact List.prefix_refl _,
+   by rw [h5]; exact List.prefix_refl _, fun sid sym h => ⟨sym, by rw [h1]; exact h, rfl, rfl, id⟩⟩
 
 theorem syms_append_stable {syms new : List Symbol} : ∀ (sid : SymId) (sym : Symbol), syms[sid]? = some sym →
-    ∃ sym' : Symbol, (syms ++ new)[sid]? = some sym' ∧ sym'.name = sym.name ∧ sym'.user = sym.user := by
+    ∃ sym' : Symbol, (syms ++ new)[sid]? = some sym' ∧ sym'.name = sym.name ∧ sym'.user = sym.user ∧
+      (sym.ty.isLocation = true → sym'.ty.isLocation = true) := by
   intro sid sym h
   have : sid < syms.length := by
     have := (List.getElem?_eq_some_iff.mp h).1; exact this
-  exact ⟨sym, by rw [List.getElem?_append_left this]; exact h, rfl, rfl⟩
+  exact ⟨sym, by rw [List.getElem?_append_left this]; exact h, rfl, rfl, id⟩
 
 theorem grows_addSymbol (s : BState) (f : FrameId) (n : String) (ty : STy) (u : Option Obj) : Grows s (s.addSymbol f n ty u).1 :=
-  ⟨List.prefix_refl _, List.prefix_refl _, syms_append_stable⟩
+  ⟨List.prefix_refl _, List.prefix_refl _, List.prefix_refl _, List.prefix_refl _, syms_append_stable⟩
 
 theorem grows_addVariable (s : BState) (ty : Ty) (n : String) : Grows s (s.addVariable ty n).1 := by
   unfold BState.addVariable
-  cases s.currentFun <;> exact ⟨List.prefix_append _ _, List.prefix_refl _, syms_append_stable⟩
+  cases s.currentFun <;> exact ⟨List.prefix_append _ _, List.prefix_refl _, List.prefix_refl _, List.prefix_refl _, syms_append_stable⟩
 
 theorem grows_addFunction (s : BState) (n : String) : Grows s (s.addFunction n).1 :=
-  ⟨List.prefix_refl _, List.prefix_append _ _, syms_append_stable⟩
+  ⟨List.prefix_refl _, List.prefix_append _ _, List.prefix_refl _, List.prefix_refl _, syms_append_stable⟩
 
-theorem grows_addLocation (s : BState) (t : Nat) (n : String) (a b : Bool) : Grows s (s.addLocation t n a b).1 :=
-  ⟨List.prefix_refl _, List.prefix_refl _, syms_append_stable⟩
+theorem grows_addLocation (s : BState) (t : Nat) (n : String) (a b : Bool) : Grows s (s.addLocation t n a b).1 := by
+  unfold BState.addLocation
+  split
+  · exact Grows.refl _
+  · exact ⟨List.prefix_refl _, List.prefix_refl _, List.prefix_append _ _, List.prefix_refl _, syms_append_stable⟩
 
-theorem grows_addBranchpoint (s : BState) (t : Nat) (n : String) : Grows s (s.addBranchpoint t n).1 :=
-  ⟨List.prefix_refl _, List.prefix_refl _, syms_append_stable⟩
+theorem grows_addBranchpoint (s : BState) (t : Nat) (n : String) : Grows s (s.addBranchpoint t n).1 := by
+  unfold BState.addBranchpoint
+  split
+  · exact Grows.refl _
+  · exact ⟨List.prefix_refl _, List.prefix_refl _, List.prefix_refl _, List.prefix_append _ _, syms_append_stable⟩
 
 theorem grows_addTemplate (s : BState) (n : String) (a b : Bool) : Grows s (s.addTemplate n a b).1 :=
-  ⟨List.prefix_refl _, List.prefix_refl _, syms_append_stable⟩
+  ⟨List.prefix_refl _, List.prefix_refl _, List.prefix_refl _, List.prefix_refl _, syms_append_stable⟩
 
 theorem grows_addInstance (s : BState) (l : Bool) (n : String) (o : Inst) (ps : List SymId) (es : List Expr) : Grows s (s.addInstance l n o ps es) :=
-  ⟨List.prefix_refl _, List.prefix_refl _, syms_append_stable⟩
+  ⟨List.prefix_refl _, List.prefix_refl _, List.prefix_refl _, List.prefix_refl _, syms_append_stable⟩
 
 theorem grows_addProcess (s : BState) (i : Inst) : Grows s (s.addProcess i) :=
-  ⟨List.prefix_refl _, List.prefix_refl _, syms_append_stable⟩
+  ⟨List.prefix_refl _, List.prefix_refl _, List.prefix_refl _, List.prefix_refl _, syms_append_stable⟩
 
-theorem grows_setSymTy (s : BState) (sid : SymId) (ty : STy) : Grows s (s.setSymTy sid ty) := by
-  refine ⟨List.prefix_refl _, List.prefix_refl _, ?_⟩
+theorem grows_setSymTy (s : BState) (sid : SymId) (ty : STy) (hty : ty.isLocation = true) : Grows s (s.setSymTy sid ty) := by
+  refine ⟨List.prefix_refl _, List.prefix_refl _, List.prefix_refl _, List.prefix_refl _, ?_⟩
   intro sid' sym h
   simp only [BState.setSymTy, List.getElem?_modify, h]
-  by_cases he : sid = sid' <;> simp [he]
+  by_cases he : sid = sid' <;> simp [he, hty]
 
 theorem grows_sandwich {s x y s' : BState} (h : Grows x y)
     (pre : x.syms = s.syms ∧ x.doc.vars = s.doc.vars ∧ x.doc.funs = s.doc.funs)
-    (post : s'.syms = y.syms ∧ s'.doc.vars = y.doc.vars ∧ s'.doc.funs = y.doc.funs) : Grows s s' :=
-  Grows.trans (Grows.trans (Grows.of_eq pre.1 pre.2.1 pre.2.2) h) (Grows.of_eq post.1 post.2.1 post.2.2)
+    (post : s'.syms = y.syms ∧ s'.doc.vars = y.doc.vars ∧ s'.doc.funs = y.doc.funs)
+    (pre2 : x.doc.locs = s.doc.locs ∧ x.doc.bps = s.doc.bps := by exact ⟨rfl, rfl⟩)
+    (post2 : s'.doc.locs = y.doc.locs ∧ s'.doc.bps = y.doc.bps := by exact ⟨rfl, rfl⟩) : Grows s s' :=
+  Grows.trans (Grows.trans (Grows.of_eq pre.1 pre.2.1 pre.2.2 pre2.1 pre2.2) h) (Grows.of_eq post.1 post.2.1 post.2.2 post2.1 post2.2)
 
 theorem grows_ite {c : Prop} [Decidable c] {s a b : BState} (ha : Grows s a) (hb : Grows s b) : Grows s (if c then a else b) := by
   split <;> assumption
@@ -161,17 +175,22 @@ theorem C16_decl_step (s : BState) (c : Call) : Grows s (step s c) := by
   case declParameter n =>
     exact grows_sandwich (grows_addSymbol s.popType.1 s.popType.1.params n (.var s.popType.2) none) ⟨rfl, rfl, rfl⟩ ⟨rfl, rfl, rfl⟩
   case declFuncBegin n =>
-    refine grows_sandwich (grows_addFunction (({ s with currentFun := none } : BState).popType.1) n) ⟨rfl, rfl, rfl⟩ ?_
-    simp only [step]
-    refine ⟨?_, ?_, ?_⟩ <;> (simp only [BState.pushNewFrame, BState.newFrame, BState.pushFrame]; split <;> rfl)
+    refine grows_sandwich (grows_addFunction (({ s with currentFun := none } : BState).popType.1) n) ⟨rfl, rfl, rfl⟩ ?_ ⟨rfl, rfl⟩ ?_
+    · simp only [step]
+      refine ⟨?_, ?_, ?_⟩ <;> (simp only [BState.pushNewFrame, BState.newFrame, BState.pushFrame]; split <;> rfl)
+    · simp only [step]
+      refine ⟨?_, ?_⟩ <;> (simp only [BState.pushNewFrame, BState.newFrame, BState.pushFrame]; split <;> rfl)
   case declExternalFunc n =>
-    refine grows_sandwich (grows_addFunction s.popType.1 n) ⟨rfl, rfl, rfl⟩ ?_
-    simp only [step]
-    refine ⟨?_, ?_, ?_⟩ <;> (simp only [BState.pushNewFrame, BState.newFrame, BState.pushFrame, BState.popFrame]; split <;> rfl)
+    refine grows_sandwich (grows_addFunction s.popType.1 n) ⟨rfl, rfl, rfl⟩ ?_ ⟨rfl, rfl⟩ ?_
+    · simp only [step]
+      refine ⟨?_, ?_, ?_⟩ <;> (simp only [BState.pushNewFrame, BState.newFrame, BState.pushFrame, BState.popFrame]; split <;> rfl)
+    · simp only [step]
+      refine ⟨?_, ?_⟩ <;> (simp only [BState.pushNewFrame, BState.newFrame, BState.pushFrame, BState.popFrame]; split <;> rfl)
   case declDynamicTemplate n =>
     simp only [step]
-    refine grows_sandwich (grows_addTemplate (if ({ s with currentTemplate := none } : BState).topContains n then ({ s with currentTemplate := none } : BState).error else ({ s with currentTemplate := none } : BState)) n true true) ?_ ⟨rfl, rfl, rfl⟩
-    refine ⟨?_, ?_, ?_⟩ <;> (split <;> rfl)
+    refine grows_sandwich (grows_addTemplate (if ({ s with currentTemplate := none } : BState).topContains n then ({ s with currentTemplate := none } : BState).error else ({ s with currentTemplate := none } : BState)) n true true) ?_ ⟨rfl, rfl, rfl⟩ ?_ ⟨rfl, rfl⟩
+    · refine ⟨?_, ?_, ?_⟩ <;> (split <;> rfl)
+    · refine ⟨?_, ?_⟩ <;> (split <;> rfl)
   case iterationBegin n =>
     exact grows_sandwich (grows_addVariable s.popType.1.pushNewFrame s.popType.2 n) ⟨rfl, rfl, rfl⟩ ⟨rfl, rfl, rfl⟩
   case returnStatement a =>
@@ -184,16 +203,18 @@ theorem C16_decl_step (s : BState) (c : Call) : Grows s (step s c) := by
     cases s.findDynamicTemplate n with
     | some t => exact Grows.of_eq rfl rfl rfl
     | none =>
-      refine grows_sandwich (grows_addTemplate (if s.topContains n then s.error else s) n isTA false) ?_ ⟨rfl, rfl, rfl⟩
-      refine ⟨?_, ?_, ?_⟩ <;> (split <;> rfl)
+      refine grows_sandwich (grows_addTemplate (if s.topContains n then s.error else s) n isTA false) ?_ ⟨rfl, rfl, rfl⟩ ?_ ⟨rfl, rfl⟩
+      · refine ⟨?_, ?_, ?_⟩ <;> (split <;> rfl)
+      · refine ⟨?_, ?_⟩ <;> (split <;> rfl)
   case procLocation n a b =>
     simp only [step]
     cases hct : (if a = true then (if b = true then s.popFrag else s).popFrag else (if b = true then s.popFrag else s)).currentTemplate with
     | none => simp only [hct]; cases a <;> cases b <;> exact Grows.of_eq rfl rfl rfl
     | some t =>
       simp only [hct]
-      refine grows_sandwich (grows_addLocation _ t n a b) ?_ ⟨rfl, rfl, rfl⟩
-      cases a <;> cases b <;> exact ⟨rfl, rfl, rfl⟩
+      refine grows_sandwich (grows_addLocation _ t n a b) ?_ ⟨rfl, rfl, rfl⟩ ?_ ⟨rfl, rfl⟩
+      · cases a <;> cases b <;> exact ⟨rfl, rfl, rfl⟩
+      · cases a <;> cases b <;> exact ⟨rfl, rfl⟩
   case procLocationCommit n =>
     simp only [step]
     cases s.resolveSym n with
@@ -203,7 +224,7 @@ theorem C16_decl_step (s : BState) (c : Call) : Grows s (step s c) := by
       cases ty <;> try exact Grows.of_eq rfl rfl rfl
       rename_i ur cm
       cases ur
-      · exact grows_setSymTy _ _ _
+      · exact grows_setSymTy _ _ _ rfl
       · exact Grows.of_eq rfl rfl rfl
   case procLocationUrgent n =>
     simp only [step]
@@ -214,7 +235,7 @@ theorem C16_decl_step (s : BState) (c : Call) : Grows s (step s c) := by
       cases ty <;> try exact Grows.of_eq rfl rfl rfl
       rename_i ur cm
       cases cm
-      · exact grows_setSymTy _ _ _
+      · exact grows_setSymTy _ _ _ rfl
       · exact Grows.of_eq rfl rfl rfl
   case procLocationInit n =>
     simp only [step]
@@ -244,7 +265,7 @@ theorem C16_decl_step (s : BState) (c : Call) : Grows s (step s c) := by
     | some p => exact grows_sandwich (grows_setEdge s.fresh.1 _) ⟨rfl, rfl, rfl⟩ ⟨rfl, rfl, rfl⟩
   case instantiationBegin a b =>
     simp only [step]
-    refine Grows.of_eq ?_ ?_ ?_ <;>
+    refine Grows.of_eq ?_ ?_ ?_ ?_ ?_ <;>
       (simp only [BState.newFrame, BState.pushFrame]; split <;> (try rfl) <;> (split <;> rfl))
   case instantiationEnd a b n =>
     simp only [step]
